@@ -75,6 +75,27 @@ Theorem C02_translated_update_genome {G} (geq : G -> G -> bool) (p : popo (G:=G)
 Proof. exact (update_genome_rows geq p new). Qed.
 Print Assumptions C02_translated_update_genome.
 
+(* Population.evaluate and the SEA-family operators (GaussianMutation, UniformMutation, ArithmeticCrossover: copy; update_genome(new
+   genomes); evaluate()), translated: after a mutation every row carries the objective's value AT ITS OWN genome, given that the rows handed
+   in did (an unchanged row keeps genome and fitness and is not evaluated again; a changed row is re-evaluated) *)
+Theorem C02_translated_evaluate {G} (geq : G -> G -> bool) (f : G -> Z) (p : popo (G:=G)) : length (pgo p) = length (pfo p) ->
+  rows_o (GenPop.gen_evaluate f p) = evaluate f (rows_o p) /\ gen_evaluate_requests p = requests (rows_o p).
+Proof. intros L. exact (conj (evaluate_rows f p L) (evaluate_requests_eq p)). Qed.
+Print Assumptions C02_translated_evaluate.
+Theorem C02_translated_mutation_keeps_fitness_true {G} (geq : G -> G -> bool) (f : G -> Z) ev (p : popo (G:=G)) new :
+  length (pgo p) = length (pfo p) -> length new = length (pgo p) -> Forall (well_valued f) (rows_o p) ->
+  Forall (fun r => snd r = Some (f (fst r))) (rows_o (gen_GaussianMutation_call geq f ev p new)) /\
+  Forall (fun r => snd r = Some (f (fst r))) (rows_o (gen_UniformMutation_call geq f ev p new)) /\
+  Forall (well_valued f) (rows_o (gen_ArithmeticCrossover_call geq f ev p new)).
+Proof.
+  intros L1 L2 W. rewrite GaussianMutation_rows, UniformMutation_rows, ArithmeticCrossover_rows by assumption.
+  split; [now apply mutate_then_evaluate_true|]. split; [now apply mutate_then_evaluate_true|].
+  destruct ev; [|now apply update_genome_valued].
+  pose proof (mutate_then_evaluate_true geq f (rows_o p) new W) as H. clear - H. induction H as [|r l Hr Hl IH]; constructor; [|exact IH].
+  unfold well_valued. now rewrite Hr.
+Qed.
+Print Assumptions C02_translated_mutation_keeps_fitness_true.
+
 (* ---------------------------------------------------------------- the same for the TRANSLATED constructors.
    Gen/GenCtor.v is regenerated on every check from AbstractDeme.__init__, the __init__ of EADeme, DEDeme, SHADEDeme, CMADeme, LocalDeme,
    LHSDeme, SobolDeme (+ the run() the two samplers call), Individual.__init__ / evaluate / evaluate_population / create_population,
